@@ -87,18 +87,34 @@ def one_case(run, seed, idx, mods):
     R = xtal.random_rotation(r, rk)
     S = gen_stretch(r, mag)
     refkind = "grain" if r.random() < 0.4 else "cell"
+    reuse = bool(rng(seed, "C10", "scratch", idx).random() < 0.3)     # own stream: independent of kind/mag/rotation
     B0 = unitcell.unitcell(cell0).B          # reference exactly as the library builds it
     if refkind == "grain":
         U0 = xtal.random_rotation(r)
-        g0 = grain.grain(np.linalg.inv(U0 @ B0))
-        ubi0 = g0.ubi
+        ubi0 = np.linalg.inv(U0 @ B0)
+        if reuse:
+            # the caller's scratch array is refilled after the grain was made (see below)
+            scratch0 = ubi0.copy()
+            g0 = grain.grain(scratch0)
+            scratch0[:] = np.linalg.inv(xtal.random_rotation(r) @ B0) * 1.01
+        else:
+            g0 = grain.grain(ubi0)
         ref = g0
     else:
         ubi0 = np.linalg.inv(B0)
         ref = cell0
     ubi = ubi0 @ S @ R.T                     # rows a_i = R S a0_i
-    g = grain.grain(ubi)
-    desc = dict(index=idx, kind=kind, ref=refkind, mag=mag, rot=rk, cell=cell0)
+    if reuse:
+        # history: grains are made one after another from ONE (3,3) work array (a row of a ubi stack, a voxel of a map)
+        # which the caller then refills for the next grain; the grain is the one that was made, whatever happens to
+        # the array afterwards
+        scratch = ubi.copy()
+        g = grain.grain(scratch)
+        scratch[:] = ubi0 * 1.02
+        run.count("scratch_array_reused_histories")
+    else:
+        g = grain.grain(ubi)
+    desc = dict(index=idx, kind=kind, ref=refkind, mag=mag, rot=rk, cell=cell0, scratch_reused=reuse)
     run.case((refkind, kind, mag, tuple(round(c, 2) for c in cell0)), nontrivial=(mag > 0 and rk != "identity"),
              sample=desc)
     if refkind == "grain":
